@@ -178,6 +178,16 @@ func cellsC05(thorough bool) []Cfg {
 			out = append(out, c)
 		}
 	}
+	// an early cancel with two deviations (the await goroutine finishing before the pool looks at its result)
+	for _, per := range []bool{false, true} {
+		c := base()
+		c.Cancel = true
+		c.CancelMs = []int64{0}
+		c.Startup = once(1)
+		c.PerInst = per
+		c.Bound = 2
+		out = append(out, c)
+	}
 	// cancel combined with a fault
 	for _, f := range []Fault{{"prov", 1}, {"aggend", 0}, {"panic", 1}} {
 		c := base()
